@@ -32,6 +32,9 @@ func (r *Recorder) Emit(e Event) int {
 	r.mu.Lock()
 	defer r.mu.Unlock()
 	e["seq"] = len(r.evs) + 1
+	if _, ok := e["t_us"]; !ok {
+		e["t_us"] = time.Since(r.t0).Microseconds()
+	}
 	r.evs = append(r.evs, e)
 	r.last = time.Now()
 	return len(r.evs)
@@ -310,14 +313,20 @@ func (w *World) Dial(ctx context.Context) (*mqtt.BaseClient, error) {
 		res = "fail"
 	}
 	open := w.openLocked()
+	if ctx.Err() != nil {
+		// a dial with an already cancelled context is not a dial
+		w.Rec.Emit(Event{"e": "Dial", "n": n, "res": "ctx", "g": 0, "open": open})
+		w.mu.Unlock()
+		return nil, ctx.Err()
+	}
 	if res == "fail" {
-		w.Rec.Emit(Event{"e": "Dial", "n": n, "res": "fail", "g": 0, "open": open, "t_us": w.Rec.Us()})
+		w.Rec.Emit(Event{"e": "Dial", "n": n, "res": "fail", "g": 0, "open": open})
 		w.mu.Unlock()
 		return nil, ErrDial
 	}
 	t := newTransport(w, len(w.conns)+1)
 	w.conns = append(w.conns, t)
-	w.Rec.Emit(Event{"e": "Dial", "n": n, "res": "ok", "g": t.G, "open": open, "t_us": w.Rec.Us()})
+	w.Rec.Emit(Event{"e": "Dial", "n": n, "res": "ok", "g": t.G, "open": open})
 	w.mu.Unlock()
 	cli := &mqtt.BaseClient{Transport: t}
 	g := t.G
@@ -427,8 +436,14 @@ func (w *World) clientPacket(t *Transport, p *Pkt) error {
 	ev := Event{"e": "Write", "g": t.G, "k": k, "p": name, "id": p.ID, "req": req, "bad": p.Bad,
 		"tag": 0, "qos": 0, "dup": false, "retain": false, "topic": "", "fs": []string{}, "qs": []int{}, "len": len(p.Raw),
 		"deliv": []int{}, "resp": "", "sp": false, "connack": "", "clean": false}
+	ev["cid"] = ""
+	ev["cflags"] = 0
+	ev["keepalive"] = 0
 	if p.Connect != nil {
 		ev["clean"] = p.Connect.CleanSession
+		ev["cid"] = p.Connect.ClientID
+		ev["cflags"] = p.Connect.Flags
+		ev["keepalive"] = p.Connect.KeepAlive
 	}
 	switch p.Type {
 	case 0x30:
